@@ -526,3 +526,145 @@ pub fn c04(sh: &Shape) {
     cover!(true, "shape checked");
     chk!(sh.fig.script_size == sh.fig.script_len, "script_size() differs from the length of the encoding");
 }
+
+// ------------------------------------------------------------------------------------------
+// C13: the interpreter agrees with script execution.  The REAL interpreter ran natively on every
+// candidate witness (library satisfactions and their mutations) under a representative of every
+// lock class; here, for ALL lock values of the class, the machine must accept whatever the
+// interpreter accepted, the path it executed must have checked exactly the reported constraints,
+// those constraints must satisfy the lifted policy, and library satisfactions of sane shapes
+// must have been accepted by the interpreter.
+
+/// Truth value of an array-form policy when exactly the reported atoms hold.
+fn eval_reported(sh: &Shape, sigs: u8, pres: u8, absm: u8, relm: u8) -> bool {
+    let p = sh.policy;
+    let mut st = [false; 12];
+    let mut sp = 0usize;
+    let mut i = 0;
+    while i < p.len() {
+        let nd = p[i];
+        let v = match nd.kind {
+            P_UNSAT => false,
+            P_TRIVIAL => true,
+            P_KEY => (sigs >> nd.a) & 1 == 1,
+            P_HASH => (pres >> nd.a) & 1 == 1,
+            P_AFTER => {
+                let mut r = false;
+                let mut j = 0;
+                while j < sh.nabs as usize {
+                    if sh.abs[j] == nd.v && (absm >> j) & 1 == 1 {
+                        r = true;
+                    }
+                    j += 1;
+                }
+                r
+            }
+            P_OLDER => {
+                let mut r = false;
+                let mut j = 0;
+                while j < sh.nrel as usize {
+                    if sh.rel[j] == nd.v && (relm >> j) & 1 == 1 {
+                        r = true;
+                    }
+                    j += 1;
+                }
+                r
+            }
+            _ => {
+                let mut c = 0u8;
+                let mut j = 0;
+                while j < nd.n as usize {
+                    sp -= 1;
+                    if st[sp] {
+                        c += 1;
+                    }
+                    j += 1;
+                }
+                c >= nd.k
+            }
+        };
+        st[sp] = v;
+        sp += 1;
+        i += 1;
+    }
+    st[0]
+}
+
+/// lock atoms (by value) among the operands the machine's CLTV / CSV executions passed
+fn lock_mask(vals: &[i64; 2], n: u8, atoms: &[u32; 2], natoms: u8) -> u8 {
+    let mut m = 0u8;
+    let mut j = 0;
+    while j < natoms as usize {
+        let mut k = 0;
+        while k < 2 {
+            if k < n as usize && vals[k] == atoms[j] as i64 {
+                m |= 1 << j;
+            }
+            k += 1;
+        }
+        j += 1;
+    }
+    m
+}
+
+/// lock class of (nLockTime, nSequence) under the interpreter's own predicates
+fn iclass(sh: &Shape, nlt: u32, nseq: u32) -> (u8, u8, u8) {
+    let (mut a, mut o) = (0u8, 0u8);
+    let mut i = 0;
+    while i < sh.nabs as usize {
+        if crate::c13::iabs(sh.abs[i], nlt) {
+            a |= 1 << i;
+        }
+        i += 1;
+    }
+    i = 0;
+    while i < sh.nrel as usize {
+        if crate::c13::irel(sh.rel[i], nseq) {
+            o |= 1 << i;
+        }
+        i += 1;
+    }
+    (a, o, if nseq == 0xffff_ffff { 1 } else { 0 })
+}
+
+pub fn c13(t: &ITab) {
+    let sh = t.sh;
+    note_shape(sh);
+    let mut i = 0;
+    while i < t.cases.len() {
+        let c = &t.cases[i];
+        let w = &t.cands[c.cand as usize];
+        let lv = t.lockvecs[c.lv as usize];
+        let is_lib = w.roles == 1 && sh.sane;
+        if c.accept || is_lib {
+            // every lock value of the class the interpreter was run in
+            let (nlt, nseq) = any_locks();
+            sym::assume(iclass(sh, nlt, nseq) == lv);
+            // natively (replay of a solver model) the REAL interpreter is run again on exactly these values
+            #[cfg(not(kani))]
+            let c = &crate::gen::c13::native_case(sh, w, nlt, nseq, c);
+            if is_lib && meets(w.abs, w.rel, nlt, nseq) {
+                chk!(c.accept, "the interpreter rejects a satisfaction the library produced for a sane descriptor");
+                cover!(true, "a library satisfaction was offered to the interpreter");
+            }
+            if c.accept {
+                let m = run_wit(sh, w, None, nlt, nseq);
+                chk!(!m.overflow, "machine capacity exceeded (inconclusive)");
+                chk!(m.accepted(), "the interpreter accepts a spend that script execution rejects");
+                if m.accepted() {
+                    chk!(m.t_sigs == c.sigs, "reported signatures differ from the signatures the executed path checked");
+                    chk!(m.t_pres == c.pres, "reported preimages differ from the preimages the executed path checked");
+                    chk!(m.t_ncltv <= 2 && m.t_ncsv <= 2, "machine trace capacity exceeded (inconclusive)");
+                    chk!(lock_mask(&m.t_cltv, m.t_ncltv, &sh.abs, sh.nabs) == c.absm, "reported absolute locks differ from the CLTV operands the executed path checked");
+                    chk!(lock_mask(&m.t_csv, m.t_ncsv, &sh.rel, sh.nrel) == c.relm, "reported relative locks differ from the CSV operands the executed path checked");
+                    if sh.liftable {
+                        chk!(eval_reported(sh, c.sigs, c.pres, c.absm, c.relm), "the reported constraints do not satisfy the lifted policy");
+                    }
+                    cover!(true, "an interpreter-accepted spend was executed");
+                }
+            }
+        }
+        i += 1;
+    }
+    cover!(true, "table walked");
+}
